@@ -73,6 +73,20 @@ Lemma rehash_mixed_cost_refused_when_repaired :
   authed (snd (step_gen XC true true st (AuthPassword 1 5 None))) = Some 1.
 Proof. vm_compute. split; reflexivity. Qed.
 
+(* 4. Why every write of a session document must carry a bucket expiry (C12_Properties.C12_session_documents_carry_expiry):
+      AuthenticateCookie never compares LoginSession.Expiration with the clock, so a session document stored without
+      an expiry (s_docexp = 0) -- e.g. a refresh that re-writes the document through an Update whose callback returns
+      no expiry -- authenticates at ANY later time, long after its Expiration. *)
+Lemma session_without_bucket_expiry_never_expires :
+  forall t,
+    let st := mkState (C:=XC) [(1, mkUser (C:=XC) (Some (4, 1, 1)) false 1 1 1)]
+                      [(1, mkSess 1 1 1000 0 1000 false)] [] 10 t 2 [] in
+    authed (snd (step XC st (AuthCookie 1))) = Some 1.
+Proof.
+  intros t. cbv zeta. unfold step, step_gen, get_session. cbn.
+  reflexivity.
+Qed.
+
 Open Scope nat_scope.
 (* A reads; B reads, checks, deletes (wins); A checks -- refreshing: the document is back -- A deletes: wins *)
 Lemma one_time_refresh_refuted :
